@@ -289,6 +289,37 @@ func c27FsmCodecs() []*kit.Codec {
 		{Label: "uid-bytes=65537", V: c27Subs{"g", 2, uidsBytes(MaxSubscriberCommandUIDBytes + 1), 0}},
 	}
 	out[len(out)-1].Boundary, out[len(out)-1].OverMax = subBoundary, subOver
+	// section "sequences": the fallible (checked) encoders of command.go, every rejecting path
+	// (uid count, uid bytes - both after the whole NUL-joined uid set was built -, empty channel
+	// id, empty batch, second batch row invalid) and one accepted call of each
+	manyMembers := make([]metadb.UserChannelMembership, MaxSubscriberCommandUIDs+1)
+	for i := range manyMembers {
+		manyMembers[i] = metadb.UserChannelMembership{UID: fmt.Sprintf("u%04d", i), ChannelID: "g", ChannelType: 2}
+	}
+	okLatest := metadb.ChannelLatest{ChannelID: "g1", ChannelType: 2, LastMessageID: 1, LastMessageSeq: 2, Payload: []byte("hi")}
+	out[len(out)-1].SeqCalls = []kit.SeqCall{
+		{Label: "AddSubscribersChecked(uids=1001)", Call: func() ([]byte, error) {
+			return EncodeAddSubscribersCommandChecked("g", 2, uidsN(MaxSubscriberCommandUIDs+1), 1)
+		}},
+		{Label: "RemoveSubscribersChecked(uid-bytes=65537)", Call: func() ([]byte, error) {
+			return EncodeRemoveSubscribersCommandChecked("g", 2, uidsBytes(MaxSubscriberCommandUIDBytes+1))
+		}},
+		{Label: "AddSubscribersChecked(uids=3)", Call: func() ([]byte, error) { return EncodeAddSubscribersCommandChecked("g", 2, []string{"c", "a", "b"}, 7) }},
+		{Label: "UpsertUserChannelMembershipsChecked(1001)", Call: func() ([]byte, error) { return EncodeUpsertUserChannelMembershipsCommandChecked(manyMembers) }},
+		{Label: "DeleteUserChannelMembershipsChecked(1001)", Call: func() ([]byte, error) { return EncodeDeleteUserChannelMembershipsCommandChecked(manyMembers) }},
+		{Label: "UpsertUserChannelMembershipsChecked(2)", Call: func() ([]byte, error) { return EncodeUpsertUserChannelMembershipsCommandChecked(manyMembers[:2]) }},
+		{Label: "UpsertChannelLatestChecked(no-channel-id)", Call: func() ([]byte, error) {
+			return EncodeUpsertChannelLatestCommandChecked(metadb.ChannelLatest{ChannelType: 2, Payload: []byte("x")})
+		}},
+		{Label: "UpsertChannelLatestChecked(ok)", Call: func() ([]byte, error) { return EncodeUpsertChannelLatestCommandChecked(okLatest) }},
+		{Label: "UpsertChannelLatestBatchChecked(empty)", Call: func() ([]byte, error) { return EncodeUpsertChannelLatestBatchCommandChecked(nil) }},
+		{Label: "UpsertChannelLatestBatchChecked(second-row-invalid)", Call: func() ([]byte, error) {
+			return EncodeUpsertChannelLatestBatchCommandChecked([]ChannelLatestBatchItem{{HashSlot: 7, Latest: okLatest}, {HashSlot: 8, Latest: metadb.ChannelLatest{ChannelID: "x"}}})
+		}},
+		{Label: "UpsertChannelLatestBatchChecked(ok)", Call: func() ([]byte, error) {
+			return EncodeUpsertChannelLatestBatchCommandChecked([]ChannelLatestBatchItem{{HashSlot: 7, Latest: okLatest}})
+		}},
+	}
 	defer func() {
 		for _, c := range out {
 			if c.Name == "fsm.RemoveSubscribers" {
